@@ -97,6 +97,10 @@ structure Plain (c : Cfg) : Prop extends Retrying c where
 
 instance {c : Cfg} : Coe (Plain c) (Retrying c) := ⟨Plain.toRetrying⟩
 
+/-- with retry enabled an input that was refused and one whose worker is dead are treated alike -/
+theorem putBack_eq {c : Cfg} (hc : Retrying c) (s : St) (inp : Inp) (fr : Bool) : putBack s inp fr = unused c s inp fr := by
+  simp [unused, hc.retry]
+
 /-- with retry enabled nothing is ever given up: the ghost record stays untouched -/
 theorem giveUp_eq {c : Cfg} (hc : Retrying c) (s : St) (w : Nat) (inp : Inp) : giveUp c s w inp = s := by
   simp [giveUp, hc.retry]
@@ -151,16 +155,16 @@ theorem inv_nextInputs {src0 F : List Inp} {s : St} (h : Inv src0 F s) :
 theorem inv_unused {c : Cfg} (hc : Retrying c) {src0 F : List Inp} {s : St} {inp : Inp} (fr : Bool)
     (h : Inv src0 (inp :: F) s) : Inv src0 F (unused c s inp fr) ∧ (unused c s inp fr).ws = s.ws := by
   cases fr
-  · refine ⟨⟨by simpa [unused, hc.retry] using h.ws, by simpa [unused, hc.retry, ppwLen] using h.pending, ?_,
-      by simpa [unused, hc.retry] using h.depl, by simpa [unused, hc.retry] using h.nopop⟩, by simp [unused, hc.retry]⟩
+  · refine ⟨⟨by simpa [unused, putBack, hc.retry] using h.ws, by simpa [unused, putBack, hc.retry, ppwLen] using h.pending, ?_,
+      by simpa [unused, putBack, hc.retry] using h.depl, by simpa [unused, putBack, hc.retry] using h.nopop⟩, by simp [unused, putBack, hc.retry]⟩
     intro i; have := h.cons i
-    simp only [cnt, ppwCount, unused, hc.retry, List.count_cons, List.count_append, List.count_nil, Bool.not_true,
+    simp only [cnt, ppwCount, unused, putBack, hc.retry, List.count_cons, List.count_append, List.count_nil, Bool.not_true,
       Bool.false_eq_true, if_false] at this ⊢
     omega
-  · refine ⟨⟨by simpa [unused, hc.retry] using h.ws, by simpa [unused, hc.retry, ppwLen] using h.pending, ?_,
-      by simpa [unused, hc.retry] using h.depl, by simpa [unused, hc.retry] using h.nopop⟩, by simp [unused, hc.retry]⟩
+  · refine ⟨⟨by simpa [unused, putBack, hc.retry] using h.ws, by simpa [unused, putBack, hc.retry, ppwLen] using h.pending, ?_,
+      by simpa [unused, putBack, hc.retry] using h.depl, by simpa [unused, putBack, hc.retry] using h.nopop⟩, by simp [unused, putBack, hc.retry]⟩
     intro i; have := h.cons i
-    simp only [cnt, ppwCount, unused, hc.retry, List.count_cons, Bool.not_true, Bool.false_eq_true, if_false,
+    simp only [cnt, ppwCount, unused, putBack, hc.retry, List.count_cons, Bool.not_true, Bool.false_eq_true, if_false,
       if_true] at this ⊢
     omega
 
@@ -269,13 +273,16 @@ theorem inv_pop_retry {src0 F : List Inp} {s : St} {inp : Inp} {rest : List Inp}
   simp only [cnt, ppwCount, hr, List.count_cons] at this ⊢
   omega
 
+theorem mem_avail {s : St} {skip : List Nat} {w : Nat} (h : w ∈ avail s skip) : w ∈ idle s :=
+  (List.mem_filter.mp h).1
+
 theorem inv_settle {c : Cfg} (hc : Retrying c) {pick : List Nat → Option Nat} (hp : PickOK pick) {src0 : List Inp} :
-    ∀ (fuel : Nat) (F : List Inp) (s : St), Inv src0 F s →
-      Inv src0 F (settle c pick fuel s) ∧ (settle c pick fuel s).ws.length = s.ws.length := by
+    ∀ (fuel : Nat) (F : List Inp) (skip : List Nat) (s : St), Inv src0 F s →
+      Inv src0 F (settle c pick fuel skip s) ∧ (settle c pick fuel skip s).ws.length = s.ws.length := by
   intro fuel
   induction fuel with
   | zero =>
-    intro F s h
+    intro F skip s h
     simp only [settle]
     split
     · exact ⟨h, rfl⟩
@@ -283,51 +290,57 @@ theorem inv_settle {c : Cfg} (hc : Retrying c) {pick : List Nat → Option Nat} 
       · exact ⟨h, rfl⟩
       · exact ⟨inv_congr h rfl rfl rfl rfl rfl rfl (by simp), rfl⟩
   | succ fuel ih =>
-    intro F s h
+    intro F skip s h
     simp only [settle, giveUp_eq hc]
     cases hr : s.retries with
     | nil => exact ⟨h, rfl⟩
     | cons inp rest =>
       simp only
-      cases hpk : pick (idle s) with
+      cases hpk : pick (avail s skip) with
       | none => exact ⟨h, rfl⟩
       | some w =>
-        obtain ⟨hw, hppw, hcl⟩ := mem_idle (hp _ _ hpk)
+        obtain ⟨hw, hppw, hcl⟩ := mem_idle (mem_avail (hp _ _ hpk))
         have h1 := inv_pop_retry h hr
         have hg : getW { s with retries := rest } w = getW s w := rfl
-        by_cases hrf : c.refuse w inp = true
-        · -- enqueue_fn refused: the input goes back to the head of the retry list (state unchanged)
-          simp only [hrf, if_true]
-          obtain ⟨h3, l3⟩ := ih F { s with retries := inp :: rest }
-            (inv_congr h rfl rfl (by simp [hr]) rfl rfl rfl h.nopop)
-          exact ⟨h3, by rw [l3]⟩
-        simp only [hrf, Bool.false_eq_true, if_false]
-        by_cases ha : (getW s w).alive = true
-        · simp only [hg, ha, if_true]
-          obtain ⟨h2, l2⟩ := inv_doEnqueue (s := { s with retries := rest }) h1 hw (by rw [hg]; exact ha) (by rw [hg]; exact hcl)
-          obtain ⟨h3, l3⟩ := ih F _ h2
-          exact ⟨h3, by rw [l3, l2]⟩
-        · simp only [hg, ha, Bool.false_eq_true, if_false]
-          obtain ⟨h2, l2, _⟩ := inv_markDead hc (s := { s with retries := rest }) h1 hw
-          obtain ⟨h3, l3⟩ := ih (inp :: F) _ h2
-          obtain ⟨h4, l4⟩ := inv_unused hc true h3
-          obtain ⟨h5, l5⟩ := ih F _ h4
-          refine ⟨h5, ?_⟩
-          rw [l5, l4, l3, l2]
+        simp only
+        -- the state after the attempt, whatever it was, satisfies the invariant
+        have key : Inv src0 F
+            (if c.refuse w inp = true then { ({ s with retries := rest } : St) with retries := inp :: rest }
+             else if (getW { s with retries := rest } w).alive = true then doEnqueue { s with retries := rest } w inp
+             else unused c (settle c pick fuel [] (markDead c { s with retries := rest } w)) inp true) ∧
+            (if c.refuse w inp = true then { ({ s with retries := rest } : St) with retries := inp :: rest }
+             else if (getW { s with retries := rest } w).alive = true then doEnqueue { s with retries := rest } w inp
+             else unused c (settle c pick fuel [] (markDead c { s with retries := rest } w)) inp true).ws.length = s.ws.length := by
+          by_cases hrf : c.refuse w inp = true
+          · simp only [hrf, if_true]
+            exact ⟨inv_congr h rfl rfl (by simp [hr]) rfl rfl rfl h.nopop, trivial⟩
+          · simp only [hrf, Bool.false_eq_true, if_false]
+            by_cases ha : (getW s w).alive = true
+            · simp only [hg, ha, if_true]
+              obtain ⟨h2, l2⟩ := inv_doEnqueue (s := { s with retries := rest }) h1 hw (by rw [hg]; exact ha) (by rw [hg]; exact hcl)
+              exact ⟨h2, l2⟩
+            · simp only [hg, ha, Bool.false_eq_true, if_false]
+              obtain ⟨h2, l2, _⟩ := inv_markDead hc (s := { s with retries := rest }) h1 hw
+              obtain ⟨h3, l3⟩ := ih (inp :: F) [] _ h2
+              obtain ⟨h4, l4⟩ := inv_unused hc true h3
+              exact ⟨h4, by rw [l4, l3, l2]⟩
+        obtain ⟨hk, lk⟩ := key
+        obtain ⟨h5, l5⟩ := ih F _ _ hk
+        exact ⟨h5, by rw [l5, lk]⟩
 
 theorem inv_handleDeath {c : Cfg} (hc : Retrying c) {pick : List Nat → Option Nat} (hp : PickOK pick)
     {src0 F : List Inp} {s : St} {w : Nat} (h : Inv src0 F s) (hw : w < s.ws.length) :
     Inv src0 F (handleDeath c pick s w) ∧ (handleDeath c pick s w).ws.length = s.ws.length := by
   unfold handleDeath
   obtain ⟨h1, l1, _⟩ := inv_markDead hc h hw
-  obtain ⟨h2, l2⟩ := inv_settle hc hp _ F _ h1
+  obtain ⟨h2, l2⟩ := inv_settle hc hp _ F [] _ h1
   exact ⟨h2, by rw [l2, l1]⟩
 
 theorem inv_tryEnqueue {c : Cfg} (hc : Retrying c) {pick : List Nat → Option Nat} (hp : PickOK pick)
     {src0 F : List Inp} {s : St} {w : Nat} (h : Inv src0 F s) (hw : w < s.ws.length) :
     Inv src0 F (tryEnqueue c pick s w).1 ∧ (tryEnqueue c pick s w).1.ws.length = s.ws.length := by
   unfold tryEnqueue
-  simp only [giveUp_eq hc]
+  simp only [giveUp_eq hc, putBack_eq hc]
   have hn := inv_nextInputs h
   generalize hg : nextInputs s = r at hn
   obtain ⟨o, s'⟩ := r
